@@ -898,7 +898,11 @@ pub fn run_check(sim: &'static dyn Sim, opt: &BatchOptions) -> i32 {
     known_hit.len()
   );
   if opt.write_evidence {
-    let samples: Vec<Value> = (0..3u64.min(summary.runs.max(1))).map(|i| json!({"run": i, "plan": shorten(&sim.gen_plan(opt.seed, i, opt.tier))})).collect();
+    // samples spread over the batch (its parts differ: enumerated, sampled, seeded, system cases)
+    let total = opt.runs_override.unwrap_or_else(|| sim.runs(opt.tier)).max(1);
+    let mut sample_runs: Vec<u64> = vec![0, total / 3, 2 * total / 3, total - 1];
+    sample_runs.dedup();
+    let samples: Vec<Value> = sample_runs.into_iter().map(|i| json!({"run": i, "plan": shorten(&sim.gen_plan(opt.seed, i, opt.tier))})).collect();
     let mut coverage = json!({
       "evaluations": summary.runs,
       "distinct_nontrivial": summary.distinct,
